@@ -13,7 +13,7 @@ import math
 import torch
 
 from mc.util import V, call, rnd, gen
-from mc.props._ivp_common import (FIXED, ADAPTIVE, METHODS, STAGES, ORDER, EMB_ORDER, TABLEAU, eps_of, dt_of,
+from mc.props._ivp_common import (FIXED, ADAPTIVE, METHODS, STAGES, ORDER, EMB_ORDER, TABLEAU, EMB_E, eps_of, dt_of,
                                   rooted_trees, tree_order, tree_gamma, tree_name, elem_weights, Spy, unit_answer,
                                   parse_attempts)
 
@@ -849,8 +849,35 @@ def run_lattice(cfg):
             obs["log"] = "unparsed"
         mu = fam.mu(sgn, lo_t, hi_t)
         tolscale = atol + rtol * ymax2
+        # ---- estimator-blind steps: an accepted step on which the embedded estimate of the textbook pair is below
+        # the tolerance while the true local error is far above it (e.g. y' = -2ty from t = 0 with h = 1: the
+        # Bogacki-Shampine estimate vanishes identically).  Every correct implementation accepts such a step, so
+        # the global error from there on is not judged.
+        blind_u = None
+        if att is not None and att and att[0]["pre"] == 1 and m in EMB_E:
+            Ew = EMB_E[m]
+            start = spy.log[0]
+            for a in att:
+                if not a["acc"]:
+                    continue
+                ent = [start] + spy.log[a["lo"]: a["lo"] + s]
+                if len(ent) == len(Ew) and a["u1"] > a["u0"]:
+                    Ks = [fam.flat(fam.rhs(te, ye)).double() for te, ye in ent]
+                    errv = (a["u1"] - a["u0"]) * sum(w * k for w, k in zip(Ew, Ks))
+                    ys, ye_ = fam.flat(start[1]).double(), fam.flat(ent[-1][1]).double()
+                    est = float(errv.abs().max()) / (atol + rtol * max(float(ys.norm()), float(ye_.norm())))
+                    le = float((ye_ - fam.flow(sgn * a["u0"], ys, sgn * a["u1"])).norm())
+                    if est < 1.0 and le > 10.0 * tolscale:
+                        blind_u = a["u1"]
+                        obs["estimator_blind_step"] = {"t0": rnd(sgn * a["u0"], 6), "t1": rnd(sgn * a["u1"], 6),
+                                                       "textbook_estimate_over_scale": rnd(est, 3),
+                                                       "local_error_over_tol": rnd(le / tolscale, 3)}
+                        break
+                start = spy.log[a["lo"] + s - 1]
         worst = 0.0
         for i in range(1, n):
+            if blind_u is not None and sgn * pts[i] >= blind_u - slack:
+                break
             growth = math.exp(min(mu * abs(pts[i] - pts[0]), 700.0))
             bound = 10.0 * tolscale * max(1, steps_at[i]) * growth + 100.0 * eps * calls_at[i] * ymax2 * growth
             e = float((Y[i] - exact[i]).norm())
